@@ -241,8 +241,13 @@ class BrokerMonitor(Monitor):
             try:
                 ev = json.loads(body.decode("utf8") if isinstance(body, bytes) else body)
                 ctx = ev["context"]
-                arn = ctx["Execution"]["Id"]
-            except (ValueError, KeyError, TypeError):
+                arn = ctx["Execution"].get("Id")
+                if arn is None:
+                    # a start event published by a client the "low-level" way: the engine derives the execution ARN
+                    # from the state machine ARN and the execution name
+                    p5 = ctx["StateMachine"]["Id"].split(":")
+                    arn = ":".join(p5[:5] + ["execution", p5[6], ctx["Execution"]["Name"]])
+            except (ValueError, KeyError, TypeError, AttributeError, IndexError):
                 return
             if queues:
                 self.exec_of_uid[uid] = arn
